@@ -697,6 +697,25 @@ dead_run(Params *p)
 		}
 		return u.result;
 	};
+	// "the state machines reject out-of-order use: receive before send on REQ ...
+	// fail with NNG_ESTATE": a request whose send failed is not outstanding.
+	auto expect_estate = [&](int ci, const char *after) {
+		UAio r;
+		nng_aio_set_timeout(r.aio, (nng_duration) W(0, 40));
+		r.arm("estate_recv");
+		if (ci == 0)
+			nng_socket_recv(req, r.aio);
+		else
+			nng_ctx_recv(c[ci], r.aio);
+		r.wait(0);
+		sim_probe("c04_dead_estate_checked");
+		if (r.result == 0)
+			nng_msg_free(nng_aio_get_msg(r.aio));
+		if (r.result != NNG_ESTATE)
+			VIOL("recv_without_request",
+			    "ctx%d: receive after %s (no request outstanding) returned %d instead of NNG_ESTATE", ci, after,
+			    r.result);
+	};
 	AWorld w;
 	w.rep         = rep;
 	w.adv_serial  = 0;
@@ -707,12 +726,14 @@ dead_run(Params *p)
 	if (W(0, 1) == 0) {
 		int  ci = (int) W(0, nctx - 1);
 		UAio u;
-		submit(u, ci, ser++, 0, (nng_duration) W(1, 30));
+		submit(u, ci, ser++, 0, (nng_duration) W(0, 30)); // 0: refused on the spot
 		int rv = reap(u);
 		sim_event("dead: ctx%d send without peer -> %d", ci, rv);
 		if (rv == 0)
 			VIOL("send_without_peer_ok", "a request was accepted for sending although no peer exists");
 		dead++;
+		if (W(0, 1))
+			expect_estate(ci, "a send that failed for want of a peer");
 	}
 	MUST(nng_listen(rep, url.c_str(), NULL, 0));
 	MUST(nng_dial(req, url.c_str(), NULL, 0));
@@ -731,9 +752,10 @@ dead_run(Params *p)
 			submit(b, blocker, ser++, (size_t) W(1500, 6000), 3000);
 			sim_quiesce(3000000);
 			UAio q;
-			submit(q, ci, ser++, 0, how == 2 ? (nng_duration) W(1, 20) : 3000);
+			submit(q, ci, ser++, 0, how == 2 ? (nng_duration) W(0, 20) : 3000);
 			sim_quiesce(2000000);
 			bool was_queued = !q.poll();
+			bool last_failed = false;
 			if (how == 1) {
 				nng_aio_cancel(q.aio);
 			} else if (how == 3) {
@@ -741,10 +763,14 @@ dead_run(Params *p)
 				submit(q2, ci, ser++, 0, 3000);
 				sim_quiesce(2000000);
 				nng_aio_cancel(q2.aio);
-				reap(q2);
+				last_failed = reap(q2) != 0;
 				dead++;
 			}
 			int rv = reap(q);
+			if (how != 3)
+				last_failed = rv != 0;
+			if (last_failed && W(0, 1))
+				expect_estate(ci, "a send that was cancelled, timed out or refused while the only connection was busy");
 			sim_event("dead: round %d ctx%d how=%ld queued=%d -> %d", round, ci, how, (int) was_queued, rv);
 			if (was_queued && rv != 0) {
 				dead++;
